@@ -47,14 +47,18 @@ def specs():
         return {'kind': 'param', 'curve': c, 'ts': t, 'xs': xs, 'period': 3}
     # every side split into [0, e], [e, 1-e], [1-e, 1]: invariant under quarter turns and the reflection
     gr = st.builds(graded, st.sampled_from(['UnitSquare', 'PiSquare']), ts, st.sampled_from([0.25, 0.125, 1 / 16, 1 / 64]))
-    return st.one_of(sq, sq, ci, gr)
+    # line/arc curves: the stadiums have a half turn (two of their four roots), the Dee only exchange and time shift
+    mx = st.builds(lambda c, t: {'kind': 'param', 'curve': c, 'ts': t, 'xs': None, 'period': 2},
+                   st.sampled_from(['Stadium', 'Stadium1', 'Dee']), ts)
+    return st.one_of(sq, sq, ci, gr, mx)
 
 
 def cases():
     def for_spec(spec):
         c = spec['curve']
         scs = [x for x in pairs.SPACE_CLASSES if not (x == 'touch_corner' and c == 'Circle')]
-        syms = ['exchange', 'tshift'] + ([] if c == 'LShape' else ['rot', 'reflect', 'rot'])
+        syms = ['exchange', 'tshift'] + ([] if c in ('LShape', 'Dee') else
+                                         ['rot'] if c.startswith('Stadium') else ['rot', 'reflect', 'rot'])
         return st.fixed_dictionaries({
             'fam': st.just('target'), 'spec': st.just(spec), 'sc': st.sampled_from(scs),
             'tc': st.sampled_from(['equal', 'touch_after', 'separated', 'overlap']),
@@ -147,7 +151,7 @@ def body(case, rec):
     sc2, tc2, near2, info2 = pairs.classify(g, tt2, tx2, st2, sx2)
     # no accuracy bound is needed here: the comparison is between two evaluations that must use the same rule in the
     # same relative position, whatever its accuracy (the unchanged tree agrees to 1e-13 also for extreme size ratios)
-    exact = case['exact'] and not g.circle
+    exact = case['exact'] and g.polygon
     cj = dict(case)
     cj['_pair'] = {'test': [tt, tx], 'trial': [st_, sx], 'image_test': [tt2, tx2], 'image_trial': [st2, sx2]}
     try:
@@ -160,6 +164,7 @@ def body(case, rec):
         rec.violation('C12/exception/%s/%s' % (exc_site(ex), type(ex).__name__), {'error': repr(ex)}, cj)
         return
     sym = case['sym']
+    rec.cls('curve_' + g.name)
     rec.cls('%s|%s' % (sym, sc.split('_eq')[0].split('_first')[0].split('_second')[0]))
     scale = (refint.diag(g, tt, tx, 'coarse') * refint.diag(g, st_, sx, 'coarse'))**0.5
     moved = sc != sc2 or info['swap'] != info2['swap'] or g.side_of(*tx) != g.side_of(*tx2)
